@@ -110,11 +110,10 @@ class Gen:
         rng = self.rng
         have = self.subs[k]
         ps = uniq([rng.choice(have) if (have and rng.random() < 0.85) else subpat(rng, self.n) for _ in range(rng.choice([1, 1, 2]))])
-        # REMOVEPARAMETERS works on parameter NAMES (the spelling used when subscribing), the model on subscription entries:
-        # never unsubscribe an entry under a spelling it was not subscribed with ("*b" for "/*/*/*b")
-        ps = [p for p in ps if (p in have) or all(subcanon(q) != subcanon(p) for q in have)]
-        if not ps:
-            ps = [rng.choice(have)] if have else ["nosuch"]
+        # REMOVEPARAMETERS works on parameter NAMES (Refl/Params.v): now and then unsubscribe an entry under another spelling
+        if have and rng.random() < 0.12:
+            q = rng.choice(have)
+            ps.append(q[5:] if q.startswith("/*/*/") else "/*/*/" + q)
         for p in ps:
             if p in have:
                 have.remove(p)
@@ -201,6 +200,10 @@ DIRECTED = [
     "a;a;s:1:0:ab=5;p:0:0:a*;p:0:0:ab@g3;p:0:0:ab@g7",
     "a;a;s:1:0:ab=5;p:0:0:a*@g3;p:0:0:a*@g7&ab",
     "a;a;s:1:0:ab=5;p:0:0:a*@g3;p:0:0:ab&a*@g7",
+    # parameter names: "ab" and "/*/*/ab" are one entry but two parameters; REMOVEPARAMETERS of a name that is no parameter is a no-op
+    "a;a;s:1:0:ab=1&b=2;p:0:0:/*/*/ab;u:0:ab;s:1:0:ab=3;u:0:/*/*/ab;s:1:0:ab=4",
+    "a;a;s:1:0:ab=1;p:0:0:ab&/*/*/ab@g0;u:0:ab;s:1:0:ab=5;u:0:/*/*/ab;p:0:0:ab;u:0:/*/*/ab&ab;s:1:0:ab=6",
+    "a;a;s:1:0:ab=1;b:0:p~0~/*/*/ab+u~ab+s~0~x=1;s:1:0:ab=2;b:0:u~/*/*/ab&/*/*/ab+p~0~ab;s:1:0:ab=3;u:0:ab;s:1:0:ab=4",
     # unsubscribe: the client's own pruning
     "a;a;s:1:0:ab=5&ac=6;p:0:0:a*&ab;u:0:a*;s:1:0:ab=7&ac=8;u:0:ab",
     # set then remove / remove then set across one flush; nested creation; recursive removal
@@ -245,7 +248,7 @@ def malformed_case(rng):
     subs = {k: [] for k in range(n)}
 
     def usable(k, p):
-        return (p in subs[k]) or all(zcanon(q) != zcanon(p) for q in subs[k])
+        return True     # two spellings of one entry are fine: the model keeps the parameter names (Refl/Params.v)
 
     for _ in range(rng.choice([5, 8, 12, 16])):
         k = rng.randrange(n)
@@ -347,8 +350,6 @@ class CHECK(vlib.Check):
                 "list-of-unique-values (ckeys) matches exactly the listed names (C15's unique_spec; F8 lies outside)",
                 "well-formed histories: a session arrives under a fresh (host, session-name) pair (ids come from a counter); fewer than "
                 "2^31-1 SUBSCRIBE: items (uint32 counts / int32 deltas); BATCH nesting below the server's limit of 100",
-                "a client unsubscribes under the spelling it subscribed with (REMOVEPARAMETERS works on parameter names: 'SUBSCRIBE:x' does "
-                "not remove what 'SUBSCRIBE:/*/*/x' created; the model removes the entry)",
                 "\"own nodes\" = the code's own test (name of the depth-2 ancestor = session id string); equals the session's subtree "
                 "when session names are unique and no host is named like a session",
                 "memory safety and object lifetime of the C++ (observed by ASan/UBSan in the harness only)"]
@@ -371,7 +372,7 @@ class CHECK(vlib.Check):
         for i in range(n):
             multi = (i % 2 == 1)
             g = Gen(rng, multi_subscribers=multi, allow_quiet=False, allow_max=not multi)
-            out.append(("multi" if multi else "single", ("m|" if multi else "s|") + g.case(rng.choice([6, 10, 16, 24]), rng.choice([2, 2, 3, 4]))))
+            out.append(("multi" if multi else "single", ("x|" if multi else "s|") + g.case(rng.choice([6, 10, 16, 24]), rng.choice([2, 2, 3, 4]))))
         for i in range(n // 10):
             g = Gen(rng, multi_subscribers=False, allow_quiet=True)
             out.append(("quiet", "q|" + g.case(rng.choice([6, 10, 16]), rng.choice([2, 3]))))
@@ -383,7 +384,7 @@ class CHECK(vlib.Check):
             out.append(("multimax", "x|" + g.case(rng.choice([8, 12, 20]), rng.choice([2, 3, 4]))))
         # colliding hash sums in the pool of subscriber tables (session ids are 0,1,2,.. in every case: the harness forks per case)
         for i in range(n // 5):
-            out.append(("pool", "m|" + pool_case(rng)))
+            out.append(("pool", "x|" + pool_case(rng)))
         # malformed-but-accepted paths (empty clauses): model/impl correspondence plus the refcount oracle
         out.append(("malformed", "z|a;a;s:1:0:x/=1;p:0:0:x/;p:0:0:x/;u:0:x/;s:1:0:x/=2;d:0"))
         for i in range(n // 5):
